@@ -68,6 +68,14 @@ L1NoTrace == (status \in {"failed", "abandoned"} /\ ~KnownAhead) => Untouched
 L1Strict  == status \in {"failed", "abandoned"} =>
                 /\ ~disk /\ ~mem["be"] /\ ~mem["ruv"] /\ ~mem["idxmeta"]
                 /\ {c \in VisibleComps : mem[c]} = (IF status = "failed" THEN AheadAt(kind, ev.k) ELSE {})
+\* the failed-commit branch (Step with ev.t = "fail") and the abandon branch as the property states them:
+\* EVERY in-memory component a commit publishes (caches, RUV, index metadata, schema, access controls,
+\* domain info, OAuth2 / application state, change id, filter cache ...) still has its pre-transaction value.
+\* True of the storage-first commit without exception; for the publish-first commit exactly the known
+\* defect (components published before the failing storage step) is exempt.
+L1AllUntouched == status \in {"failed", "abandoned"} =>
+                    {c \in Comps : mem[c]} \subseteq
+                       (IF status = "failed" /\ CommitOrder # "storage_first" THEN PublishedBefore(ev.k) ELSE {})
 L1Success == status = "ok" => disk /\ \A c \in Changed(kind) \cap Comps : mem[c]
 \* C05: recovered state is uniformly old or uniformly new
 L1Crash   == status = "recovered" =>
